@@ -244,6 +244,13 @@ def body_main(tree, sel, probe_cfg):
         out.append('        std::printf("io %s\\n", oss.str().c_str());')
         out.append("    }")
     out.append(apisurface.calls(probe_cfg, io))
+    if probe_cfg.get("user_macros"):
+        for n in tree.macro_names:
+            out.append("#ifdef %s" % n)
+            out.append('    std::printf("macro %s %%d\\n", int(%s));' % (n, n))
+            out.append("#else")
+            out.append('    std::printf("macro %s undefined\\n");' % n)
+            out.append("#endif")
     out.append("    return 0;")
     out.append("}")
     return "\n".join(out) + "\n"
@@ -348,5 +355,10 @@ def sources(tree, sel, probe_cfg, variant):
     """{filename: text} for one variant ('single' or 'multi')."""
     seed = probe_cfg.get("include_order")
     main = "\n".join(preamble(tree, sel, variant, seed, "probe", 2)) + "\n" + body_main(tree, sel, probe_cfg)
+    if probe_cfg.get("user_macros") and tree.macro_names:
+        # The user's program has macros of its own, with exactly the names the library looks at or
+        # touches (#ifndef PI, #undef X, push_macro("X") ...): defined before the package is
+        # included, inspected afterwards.  Both packagings must leave them in the same state.
+        main = "".join("#define %s %d\n" % (n, 12345 + i) for i, n in enumerate(tree.macro_names)) + main
     other = "\n".join(preamble(tree, sel, variant, seed, "other", 1)) + "\n" + body_other(tree, sel)
     return {"probe.cc": main, "other.cc": other, "fine.cc": fine_source(sel, variant)}
